@@ -123,7 +123,9 @@ def _fire_once_events(ctx, cq, tr, events, prefix):
             unreg = any(e.kind == "UNREG" and e.a["reg"] == rg and (e.a["key"] == own[2] or e.a.get("elem") == own
                                                                       or e.a["how"] == "clear") for e in events)
         guarded = any(isinstance(c.term, tuple) and mentions(c.term, ("attr", f.a["dfr"], "called")) for c in f.conds)
-        ctx.ob(prefix, "%s %s: fired element leaves %s (%s)" % (cq, short(f.func), rg, tr.label()), unreg or guarded,
+        # (a `.called` test protects this firing from being a second one; it does not excuse leaving the fired entry registered,
+        # from where a later acknowledgement or refill reaches it again)
+        ctx.ob(prefix, "%s %s: fired element leaves %s (%s)" % (cq, short(f.func), rg, tr.label()), unreg,
                where=where(f), function=f.func, construct="%s/fire-without-unreg/%s" % (f.func, rg),
                msg="Deferred of an element of %s is fired but the element stays registered: a second acknowledgement fires it "
                    "again (AlreadyCalledError)" % rg, trigger=tr.label())
